@@ -1,5 +1,146 @@
 import AiocoapModel.Basic.Bytes
-/-! Line protocol for C15 (not built yet). -/
+import AiocoapModel.Tcp.Frame
+import AiocoapModel.Tcp.Conn
+/-! Line protocol for the CoAP-over-TCP model.
+
+Bytes on input: pieces joined by `+`, a piece is lower-case hex or `<bb>*<n>` (n copies of the
+byte bb); `-` is the empty string.  Bytes on output: hex up to 40 bytes, otherwise
+`#<length>:<adler32>`; `-` is the empty string.
+
+`C15 X <bytes>`                         → `none` | `<tokenoffset> <tkl> <length>`
+`C15 L <n>`                             → `<nibble> <ext>` | `err`
+`C15 D <bytes>`   (a complete frame)    → `unparsable` | `<msg>`
+`C15 S <code> <token> <payload> <num>:<val>*` → `<bytes>` | `err`
+`C15 F <maxsize> <chunk>*`              → events of a whole session, then
+                                          ` |spool=<bytes> csm=<-|mms/bw> closed=<0|1>`
+`<msg>` = code, token, options (`<num>:<val>` joined by commas, or a dash) and payload,
+joined by slashes;
+events `Q<msg>` `R<msg>` `W<bytes>` `C` `E:<released|aborted|lost>` `X`.
+-/
 namespace Aiocoap
-def handleC15 (_args : List String) : String := "out-of-model"
+open Aiocoap.Tcp
+
+namespace C15Driver
+
+/-- tail-recursive hex parser (frames of a megabyte are fed through the driver) -/
+def hexPairs : List Char → Bytes → Option Bytes
+  | [], acc => some acc.reverse
+  | [_], _ => none
+  | a :: b :: rest, acc =>
+    match hexVal a, hexVal b with
+    | some x, some y => hexPairs rest ((x * 16 + y) :: acc)
+    | _, _ => none
+
+def parsePiece (s : String) : Option Bytes :=
+  match s.splitOn "*" with
+  | [h] => hexPairs h.toList []
+  | [h, n] =>
+    match hexPairs h.toList [], n.toNat? with
+    | some [b], some n => some (List.replicate n b)
+    | _, _ => none
+  | _ => none
+
+def parseBytes (s : String) : Option Bytes :=
+  if s = "-" then some [] else
+  ((s.splitOn "+").mapM parsePiece).map List.flatten
+
+def adler32 (b : Bytes) : Nat :=
+  let r := b.foldl (fun (acc : Nat × Nat) x =>
+    let a := (acc.1 + x) % 65521
+    (a, (acc.2 + a) % 65521)) (1, 0)
+  r.2 * 65536 + r.1
+
+def hexTR (b : Bytes) : String :=
+  String.ofList (b.foldr (fun x acc => hexDigit (x / 16 % 16) :: hexDigit (x % 16) :: acc) [])
+
+def render (b : Bytes) : String :=
+  if b.isEmpty then "-"
+  else if b.length ≤ 40 then hexTR b
+  else s!"#{b.length}:{adler32 b}"
+
+def renderOpts (os : List Opt) : String :=
+  if os.isEmpty then "-" else ",".intercalate (os.map fun o => s!"{o.num}:{render o.val}")
+
+def renderMsg (m : Msg) : String :=
+  s!"{m.code}/{render m.token}/{renderOpts m.opts}/{render m.payload}"
+
+def renderOut : Out → String
+  | .request m => "Q" ++ renderMsg m
+  | .response m => "R" ++ renderMsg m
+  | .write b => "W" ++ render b
+  | .close => "C"
+  | .failPending .released => "E:released"
+  | .failPending .aborted => "E:aborted"
+  | .failPending .lost => "E:lost"
+  | .sendError => "X"
+
+def renderConn (c : Conn) : String :=
+  let csm := match c.csm with
+    | none => "-"
+    | some s =>
+      (match s.maxMessageSize with | none => "n" | some v => toString v) ++ "/" ++
+      (if s.blockwise then "1" else "0")
+  s!"spool={render c.spool} csm={csm} closed={if c.closed then 1 else 0}"
+
+def parseOpt (s : String) : Option Opt :=
+  match s.splitOn ":" with
+  | [n, v] =>
+    match n.toNat?, parseBytes v with
+    | some n, some v => some ⟨n, v⟩
+    | _, _ => none
+  | _ => none
+
+/-- option deltas of the list as `Options.encode` computes them -/
+def deltas (cur : Nat) : List Opt → List Nat
+  | [] => []
+  | o :: os => (o.num - cur) :: deltas o.num os
+
+end C15Driver
+
+open C15Driver in
+def handleC15 (args : List String) : String :=
+  match args with
+  | ["X", b] =>
+    match parseBytes b with
+    | some b =>
+      match extractSize b with
+      | none => "none"
+      | some (to, tkl, len) => s!"{to} {tkl} {len}"
+    | none => "bad-op"
+  | ["L", n] =>
+    match n.toNat? with
+    | some n =>
+      match encodeLength n with
+      | some (nib, ext) => s!"{nib} {render ext}"
+      | none => "err"
+    | none => "bad-op"
+  | ["D", b] =>
+    match parseBytes b with
+    | some b =>
+      -- `_decode_message` is only claimed for what `data_received` passes: a complete frame
+      if frameSize b ≠ some b.length then "out-of-model" else
+      match decodeMessage b with
+      | some m => renderMsg m
+      | none => "unparsable"
+    | none => "bad-op"
+  | "S" :: code :: token :: payload :: opts =>
+    match code.toNat?, parseBytes token, parseBytes payload, opts.mapM parseOpt with
+    | some code, some token, some payload, some opts =>
+      -- 65804 is the value on which `_write_extended_field_value` is off by one (a C01 matter)
+      if (deltas 0 opts).contains 65804 ∨ (opts.map fun o => o.val.length).contains 65804 then
+        "out-of-model"
+      else if code ≥ 256 then "out-of-model"
+      else
+        match serialize { code, token, opts, payload } with
+        | some b => render b
+        | none => "err"
+    | _, _, _, _ => "bad-op"
+  | "F" :: maxSize :: chunks =>
+    match maxSize.toNat?, chunks.mapM parseBytes with
+    | some maxSize, some chunks =>
+      let r := session maxSize chunks
+      " ".intercalate (r.2.map renderOut) ++ " |" ++ renderConn r.1
+    | _, _ => "bad-op"
+  | _ => "bad-op"
+
 end Aiocoap
